@@ -2534,7 +2534,6 @@ def extend(
 
         n_nops_new = len(newpulse.n_opers)
         control_matrix = np.zeros((n_nops_new, (d_per_qubit**N)**2, len(omega)), dtype=complex)
-        filter_function = np.zeros((n_nops_new, n_nops_new, len(omega)), dtype=complex)
         n_ops_counter = 0
         for ind, pulse in zip(idx, pulses):
             n_nops = len(pulse.n_opers)
@@ -2552,10 +2551,6 @@ def extend(
                 omega, show_progressbar=show_progressbar
             )*np.sqrt(scaling_factor)
 
-            filter_function[n_oper_idx, n_oper_idx] = pulse.get_filter_function(
-                omega, show_progressbar=show_progressbar
-            )*scaling_factor
-
         if additional_noise_Hamiltonian is not None:
             newpulse_n_oper_inds = util.get_indices_from_identifiers(
                 newpulse.n_oper_identifiers, n_oper_identifiers[n_ops_counter:]
@@ -2567,9 +2562,10 @@ def extend(
                 cache_intermediates=False
             )
 
-            filter_function[n_ops_counter:, n_ops_counter:] = numeric.calculate_filter_function(
-                control_matrix[n_ops_counter:]
-            )
+        # The filter function also has cross-correlation blocks between noise
+        # operators of different pulses (if they have a trace) and with the
+        # additional noise Hamiltonian, so get it from the full control matrix
+        filter_function = numeric.calculate_filter_function(control_matrix)
 
         newpulse.cache_total_phases(omega)
         newpulse.total_propagator_liouville = liouville_representation(newpulse.total_propagator,
